@@ -72,6 +72,8 @@ type histScenario struct {
 	// Forest, if set, is run first (blocks, undo, remember, prune); History.Blocks then continue from its end state.
 	Forest  *fScenario  `json:"forest,omitempty"`
 	History gen.History `json:"history"`
+	// LeafMode selects adversarial leaf hashes (World.SetLeafMode): "" | "readd" | "prefix".
+	LeafMode string `json:"leaf_mode,omitempty"`
 	Cfgs    []InstCfg   `json:"cfgs,omitempty"`
 	Extra   any         `json:"extra,omitempty"`
 }
